@@ -1,5 +1,6 @@
 (* C11 — rotation re-expresses the retained subspace. Statements only. *)
 From Coq Require Import String ZArith List Bool Reals Permutation.
+From XV Require Import Model.FlagState Proofs.FlagState_proofs Proofs.RotState_proofs.
 From XV Require Import Base.Scalar Base.Sum Base.Mat Base.RInst Model.Eof Model.Rot Gen.T5rot
   Proofs.C01_proofs Proofs.C11_proofs Proofs.C11_real Proofs.C11_tie.
 Import ListNotations.
@@ -83,3 +84,15 @@ Definition C11_varimax_criterion_full : Prop :=
   wf OR p k X -> varimax_admissible p k X (mI OR k) answers ->
   let Rfin := varimax_run OR k (map (fun a => (fst (fst a), snd a)) answers) in
   (varimax_criterion p k X <= varimax_criterion p k (mmul OR p k k X Rfin))%R.
+
+(* descending order survives any call history: after whatever was fitted, computed or asked before, once compute() has run
+   after the last fit the stored mode-indexed arrays are that fit's arrays re-indexed by that fit's own sorting permutation
+   (the flag protocol of Model/FlagState.v in the variant regenerated from the source, C04_flag_protocol_matches_source);
+   in particular the stored explained variances are the fresh ones in the order idx *)
+Theorem C11_sorted_after_any_history : forall (F : Type) (K : Ops F) (n p : nat)
+  (ops : list (fop (@rot_out F))) (s : fstate (@rot_out F)), FlagInv _ (rot_sort K n p) s ->
+  let s' := frun _ (rot_sort K n p) true true s (ops ++ [FCompute _]) in
+  fs_sorted _ s' = true /\ fs_data _ s' = rot_sort K n p (fs_idx _ s') (fs_fresh _ s') /\
+  r_expvar (fs_data _ s') = vsel K (fs_idx _ s') (r_expvar (fs_fresh _ s')).
+Proof. exact (fun F K n p => @rot_sorted_after_any_history F K n p). Qed.
+Print Assumptions C11_sorted_after_any_history.
